@@ -21,7 +21,8 @@ def c02(ctx: Ctx):
         "D: spec/LoaderImpl.tla models the resolver as written (fixed walk order, in-progress set keyed by the raw ref string, waiters, chains; the pre-repair walk that skipped positions is kept as a pinned variant); MC_C02 checks it against the contract on all 6.6k universes (strict agreement on clean ones, listed deviations reproduced); the trace spec compares every observed site with the model's prediction (fidelity)",
         "TLC; spec/Layout.tla: URI resolution of a ref against the file that contains it ('.'/'..' normalisation), JSON pointer into components, chains followed to a concrete object",
         "harness realiser harness/c02.go: universes written as JSON files in a temp dir (every concrete object carries a unique x-id extension) and loaded through LoadFromFile (absolute / relative) or LoadFromDataWithPath; projector: generic reflection walk over every *Ref value of the returned document",
-        "one reference graph per universe (9 component kinds x their child sites x 20 shapes x 3 path spellings x 2 root positions x 3 entry points); JSON files only",
+        "one reference graph per universe (9 component kinds + path items x their child sites and pairs of sites x ~60 shapes x 3 path spellings x 3 root positions x 14 entry points / Loader histories); JSON files only",
+        "D: spec/LoaderReuse.tla models what a Loader keeps between uses (visited-documents cache, in-progress set, the switch flipped between uses); bound to the code by the *_toggled / *_retry entries",
     ]
     if ctx.replay:
         cases = os.path.join(ctx.scratch, "cases.ndjson")
@@ -35,11 +36,16 @@ def c02(ctx: Ctx):
         # and reproduce the listed deviations (conflation, pure cycles)
         ctx.tlc("MC_C02", "MC_C02.cfg", label="D LoaderImpl vs Designated on all universes (strict on clean, reproduces listed deviations)")
         ctx.tlc("MC_C02", "MC_C02_pinned.cfg", expect_violation=True, label="D pinned resolver (before the repairs of F-C02-1): positions never visited")
+        # D: what a Loader keeps between uses (visited-documents cache, in-progress set, the switch flipped between uses) as a state
+        # machine over all histories of <= 4 uses: the repaired design behaves like a fresh Loader at every use, the code as it
+        # is does not (F-C02-6; its shortest counterexamples are the entries file_abs_retry / resolvein_retry realised below)
+        ctx.tlc("LoaderReuse", "MC_LoaderReuse_repaired.cfg", workers=2, label="D LoaderReuse (repaired design): every use of a used Loader is like a fresh one")
+        ctx.tlc("LoaderReuse", "MC_LoaderReuse_pinned.cfg", workers=2, expect_violation=True, label="D LoaderReuse (code as it is): UsedLikeFresh counterexample (F-C02-6)")
         cases = gen_universes(ctx, ctx.tier)
         ctx.exhaustive = True
     ctx.build_driver()
     logp = os.path.join(ctx.scratch, "log.ndjson")
-    ctx.drive(cases, logp)
+    ctx.drive(cases, logp, shards=(8 if ctx.tier == "thorough" else 4))
     rng = random.Random(ctx.seed)
     for l in open(logp):
         o = json.loads(l)
